@@ -797,6 +797,20 @@ class Exec:
             if self.opts.get('unk_raises', True) and not isinstance(op, (ast.Eq, ast.NotEq)):
                 outs.append((p.fork(), Raised(VExc('TypeError', where=node.lineno))))
             return outs
+        if isinstance(a, VFP) or isinstance(b, VFP):
+            def fp(v):
+                if isinstance(v, VFP): return v.t
+                if isinstance(v, (VReal, VInt)):
+                    sv = z3.simplify(v.t)
+                    if _is_numeral(sv):
+                        fr = sv.as_fraction() if z3.is_rational_value(sv) else None
+                        val = float(fr) if fr is not None else float(sv.as_long())
+                        # a float literal in the source IS the double nearest to its decimal text: float() of the text
+                        return z3.FPVal(val, z3.Float64())
+                raise Unsupported('mixed FP comparison')
+            x, y = fp(a), fp(b)
+            t = {ast.Lt: z3.fpLT, ast.LtE: z3.fpLEQ, ast.Gt: z3.fpGT, ast.GtE: z3.fpGEQ, ast.Eq: z3.fpEQ, ast.NotEq: z3.fpNEQ}[type(op)](x, y)
+            return [(p, t)]
         if isinstance(op, (ast.Eq, ast.NotEq)):
             t = self.equal(a, b, p)
             return [(p, t if isinstance(op, ast.Eq) else z3.Not(t))]
